@@ -246,6 +246,7 @@ func c09(x *mon.Ctx) {
 	x.Require("sizefield", 4, 100, 100)
 	x.Require("trailing", 64, 0, 64)
 	x.Require("pattern", 15, 0, 15)
+	x.Require("pattern-16MiB", 8, 0, 8)
 
 	// messages
 	nm := x.Pick(300, 20000)
